@@ -163,7 +163,7 @@ fn spec_of(c: &Case) -> ModuleS {
 
 fn input_of(c: &Case) -> pipe::Input {
     let m = spec_of(c);
-    pipe::Input { modules: vec![(m.path.clone(), Printer { style: NumStyle::Dec, reverse_type_attrs: false, docs_after_attrs: c.docs_after }.module(&m))] }
+    pipe::Input { modules: vec![(m.path.clone(), Printer { style: NumStyle::Dec, reverse_type_attrs: false, docs_after_attrs: c.docs_after, attr_order: 0 }.module(&m))] }
 }
 
 fn set(v: &[String]) -> BTreeSet<String> {
